@@ -205,6 +205,8 @@ def check(R, F, P, cfg):
     cu = P.call_sites(lambda ci: "catch_unwind" in ci["npath"])
     R.inst("R7.6", "no-catch_unwind", not cu, "calls of catch_unwind in the crate: %s" % [f.npath for f, _, _ in cu], cfg=cfg, nontrivial=False)
 
+    check_wrappers(R, F, P, cfg, "R7.9")
+
     # ---- R7.8 no buffered box across its own payload destructor --------------------------------------
     R.doc("R7.8", "Cc::drop un-buffers the box (remove_from_list) and brings its count to 0 before the payload destructor can run: if that destructor panics the leaked box must not stay linked in the buffer")
     dr = anchor(F, "<cc::Cc<T> as std::ops::Drop>::drop")
